@@ -44,10 +44,11 @@ type stdioClientTransport struct {
 	serverParams StdioServerParameters
 	timeout      time.Duration
 
-	process *exec.Cmd
-	stdin   io.WriteCloser
-	stdout  io.ReadCloser
-	stderr  io.ReadCloser
+	process     *exec.Cmd
+	processDone chan struct{} // closed by processWatcher once Wait has returned
+	stdin       io.WriteCloser
+	stdout      io.ReadCloser
+	stderr      io.ReadCloser
 
 	encoder   *json.Encoder
 	decoder   *json.Decoder
@@ -168,6 +169,7 @@ func (t *stdioClientTransport) startProcess() error {
 
 	// Store references.
 	t.process = cmd
+	t.processDone = make(chan struct{})
 	t.stdin = stdin
 	t.stdout = stdout
 	t.stderr = stderr
@@ -577,6 +579,7 @@ func (t *stdioClientTransport) processWatcher() {
 	}
 
 	err := t.process.Wait()
+	close(t.processDone)
 	if !t.closed.Load() {
 		if err != nil {
 			t.logger.Debugf("Process exited with error: %v", err)
@@ -639,15 +642,10 @@ func (t *stdioClientTransport) close() error {
 			t.logger.Debugf("Failed to send SIGTERM: %v", err)
 		}
 
-		// Wait a bit for graceful shutdown.
-		done := make(chan struct{})
-		go func() {
-			t.process.Wait()
-			close(done)
-		}()
-
+		// Wait a bit for graceful shutdown. processWatcher is the only caller of Wait:
+		// a second concurrent Wait on the same command would block for ever.
 		select {
-		case <-done:
+		case <-t.processDone:
 			t.logger.Debugf("Process terminated gracefully")
 		case <-time.After(5 * time.Second):
 			// Force kill.
